@@ -173,6 +173,8 @@ def prop_C18(ctx, tier):
     _selftest_guard(run, 'C18-M1', 'split_clear', any('selftest::split_clear' in k for k in keys))
     if any('atomic_removal' in k for k in keys):
         run.bad('C18-M1', 'fail-closed/selftest/negative', 'fail-closed: negative twin atomic_removal was flagged')
+    nclr = L.check_clear_is_complete(run, prog, [b for b in bodies if b.crate is ctx.core], namer=ctx.label)
+    run.require('C18-M4', 'library functions that empty a cache', nclr, 1)
     from . import rules_core as K
     K.check_orphan_tolerance(run, ctx, 'C18-P1')
     L.check_no_try_locks(run, ctx.world, 'C18-M2')
